@@ -216,6 +216,18 @@ def one_history(ctx, rng, kind, with_objective=True, max_constraints=4):
             ctx.violation(tagp + "num_ancillas-too-small", "num_ancillas=%d but %d ancilla names exist" % (H.num_ancillas, len(lineage)), w)
             return
         recorded.append((R, Pp))
+        if rng.random() < 0.15:
+            # bookkeeping refresh between two constraints: terms, recorded constraints and the ancilla count stay
+            c0, a0, t0 = H.constraints, H.num_ancillas, dict(H)
+            okr, _ = ctx.call("refresh", H.refresh, _w={"model": T.__name__, "history": hist})
+            hist.append(["refresh"])
+            ctx.cat("refresh-between-constraints")
+            if not okr:
+                return
+            if H.constraints != c0 or H.num_ancillas != a0 or dict(H) != t0:
+                ctx.violation("refresh:constraints-or-ancillas-changed", "refresh() between constraints changed constraints / num_ancillas (%r -> %r) / terms" % (a0, H.num_ancillas),
+                              {"model": T.__name__, "history": hist})
+                return
         if not interleaved_validity("after constraint %d" % (ci + 1)):
             return
         rel = oracles.REL[R]
